@@ -65,7 +65,7 @@ def h_ct(f, k, m, n, defs=None, rounds=1, txt=None):
     def mk():
         if defs_list:
             return _specs('sub', defs_list, f, vs, 'online', _mk_ct, False)[0]
-        return ct.make_spec('online', 'out = ' + (txt or text(f)), vs)
+        return ct.make_spec('online~', 'out = ' + (txt or text(f)), vs)
 
     def body(env):
         A = env.A
